@@ -7,7 +7,7 @@ Trace == ndJsonDeserialize(TraceFile)
 VARIABLES l, ts, bad
 tvars == <<l, ts, bad>>
 SetOfSeq(s) == {s[i] : i \in DOMAIN s}
-NormFeat(f) == Feat(f.e, f.no, f.type, f.role, {[fn |-> x.fn, r |-> x.r, w |-> x.w] : x \in SetOfSeq(f.fns)})
+NormFeat(f) == [Feat(f.e, f.no, f.type, f.role, {[fn |-> x.fn, r |-> x.r, w |-> x.w] : x \in SetOfSeq(f.fns)}) EXCEPT !.desc = f.desc]
 NormFeats(s) == {NormFeat(s[i]) : i \in DOMAIN s}
 NoDup(seq) == \A i, j \in DOMAIN seq : seq[i] = seq[j] => i = j
 ObsReply(e) == IF e.reply.none THEN NoReply ELSE [ents |-> SetOfSeq(e.reply.ents), feats |-> NormFeats(e.reply.feats), none |-> FALSE]
@@ -26,7 +26,7 @@ TStep ==
                        \cup (IF e.ret = o.ret THEN {} ELSE {"return value"})
                        \cup (IF ObsReply(e) = o.reply THEN {} ELSE {"discovery reply"})
                        \cup (IF ObsNotes(e) = o.notes /\ \A p \in Peers : NoDup(e.notes[p]) THEN {} ELSE {"notifications"})
-                       \cup (IF ObsTree(e) = [ents |-> AddedEnts(o.st), feats |-> Announced(o.st)] THEN {} ELSE {"tree"})
+                       \cup (IF ObsTree(e) = [ents |-> AddedEnts(o.st), feats |-> {Strip(f) : f \in Announced(o.st)}] THEN {} ELSE {"tree"})
                        \cup (IF e.staticok THEN {} ELSE {"static part of the tree changed"})
                        \cup (IF e.resolves THEN {} ELSE {"announced address does not resolve to its feature"})
             IN /\ ts' = o.st                     \* the model state is the input history's (the tree is read back every step)
